@@ -35,6 +35,8 @@ func checkC01(w *World, r *Report) {
 	c01WsWrite(w, r)
 	c01WriteCounts(w, r)
 	c01WsReadLimit(w, r)
+	r.Rule("R01.15", "the DNS carrier's memory of acknowledged sequence numbers is bounded and forgets oldest first (numbers are reused after 65536 chunks: a stale acknowledgement retires an unsent chunk)", 2)
+	ruleAckMemory(w, r, "R01.15")
 	r.Rule("R01.14", "the client forgets its shared physical connection only when that connection is dead or has just been closed (a living session left behind shares the re-dialled connection: cross-delivery)", 1)
 	ruleSharedConnectionForgottenOnlyWhenDead(w, r, "R01.14")
 	r.Rule("R01.13", "records of a multi-record DNS answer are put back in order by a comparator that indexes the slice being sorted (resolvers reorder record sets)", 1)
